@@ -438,7 +438,13 @@ class Act:
         self.hash.update(actor.encode() + b"#%d|" % j + ab + b"|" + out + b";")
 
     # ---- actors
+    def _check_args(self, args):
+        want = ("extra-arg", 7) if self.cfg.get("args") else ()
+        if tuple(args) != want:
+            raise AssertionError("user function called with args %r, expected %r" % (args, want))
+
     def _fun(self, x, *args):
+        self._check_args(args)
         j = self._enter("fun", x)
         v = self.problem.f(x)
         xb = x.tobytes()
@@ -451,6 +457,7 @@ class Act:
         return v
 
     def _jac(self, x, *args):
+        self._check_args(args)
         j = self._enter("jac", x)
         gv = np.asarray(self.problem.g(x), dtype=float)
         xb = x.tobytes()
@@ -558,11 +565,19 @@ class Act:
         else:
             x0 = np.array(p.x0, copy=True)
         bounds = None if p.bounds is None else np.array(p.bounds, copy=True)
-        if self.freeze_inputs:
+        if bounds is not None and c.get("bounds_style") == "list_none":
+            # old-style sequence of (min, max) pairs with None for "no bound"
+            bounds = [
+                (None if not np.isfinite(lo) else float(lo), None if not np.isfinite(hi) else float(hi))
+                for lo, hi in bounds
+            ]
+        if self.freeze_inputs and not isinstance(bounds, list):
             if self.checkpoint is None:
                 x0.flags.writeable = False
             if bounds is not None:
                 bounds.flags.writeable = False
+        elif self.freeze_inputs and self.checkpoint is None:
+            x0.flags.writeable = False
         self._x0, self._bounds = x0, bounds
         kw = dict(
             x0=x0,
@@ -582,6 +597,9 @@ class Act:
             if opt in c:
                 kw[opt] = c[opt]
         kw["jac"] = self._jac if c["jac"] == "callable" else c["jac"]
+        if c.get("args"):
+            # extra positional arguments must reach every user function unchanged
+            kw["args"] = ("extra-arg", 7)
         if self.checkpoint is not None:
             kw["checkpoint"] = self.checkpoint
         ft = c["ftarget"]
@@ -623,7 +641,7 @@ class Act:
         ck = self.checkpoint
         return arrays_digest(
             self._x0,
-            self._bounds,
+            None if self._bounds is None else np.array([[np.nan if v is None else v for v in row] for row in self._bounds], dtype=float) if isinstance(self._bounds, list) else self._bounds,
             None if ck is None else ck.x,
             None if ck is None else ck.jac,
             None if ck is None else ck.hess_inv.sk,
